@@ -3,7 +3,7 @@
 import random
 import shapes as shp
 
-def emit(sj):
+def emit(sj, header='<hfsm2/machine.hpp>'):
     nodes, regions = sj['nodes'], sj['regions']
     named = [n['id'] for n in nodes if not (n['kind'] != 'L' and n['headless'])]
     def types(prefix):
@@ -22,7 +22,7 @@ def emit(sj):
     decl = lambda p: '\n'.join('struct %s%d;' % (p, i) for i in named)
     out = []
     out.append('#define HFSM2_ENABLE_PLANS\n#define HFSM2_ENABLE_SERIALIZATION\n#define HFSM2_ENABLE_TRANSITION_HISTORY\n#define HFSM2_ENABLE_STRUCTURE_REPORT\n#define HFSM2_ENABLE_UTILITY_THEORY\n#define HFSM2_ENABLE_DEBUG_STATE_TYPE')
-    out.append('#include <hfsm2/machine.hpp>\n#include <cstdio>')
+    out.append('#include %s\n#include <cstdio>' % header)
     out.append('static int g_seen[%d]; static int g_bad = 0;' % len(nodes))
     out.append('#ifdef HFSM2_VERIF\nextern "C" void hfsm2_verif_break(const char*, int) { ++g_bad; }\n#endif')
     out.append('using M = hfsm2::MachineT<hfsm2::Config>;')
